@@ -46,8 +46,10 @@ def _build(P):
 
 
 def _events(P, a, b):
-    evs_a = [mk_event(t, f"send{i}", a) for i, t in enumerate(P["ts"])] + [mk_event(t, f"alocal{i}", a) for i, t in enumerate(P.get("ta", []))]
-    evs_b = [mk_event(t, f"local{i}", b) for i, t in enumerate(P["tu"])]
+    dm = P.get("daemon", {})
+    evs_a = ([mk_event(t, f"send{i}", a, bool(dm.get(f"send{i}"))) for i, t in enumerate(P["ts"])]
+             + [mk_event(t, f"alocal{i}", a, bool(dm.get(f"alocal{i}"))) for i, t in enumerate(P.get("ta", []))])
+    evs_b = [mk_event(t, f"local{i}", b, bool(dm.get(f"local{i}"))) for i, t in enumerate(P["tu"])]
     return evs_a, evs_b
 
 
@@ -63,6 +65,8 @@ def equivalence(sym, tier):
         "lat": {i: S + sym.int(f"extra{i}", 0, S) for i in range(nsend)},
         "reply_lat": (S + sym.int("reply_extra", 0, S)) if sym.bool("reply") else None,
     }
+    # daemon events do not keep an open-ended run alive, but with a finite end_time they are delivered like any other
+    P["daemon"] = {"send0": sym.bool("daemon_send0"), "local0": sym.bool("daemon_local0"), "alocal0": sym.bool("daemon_alocal0")}
     window = sym.pick("window", [1.0, 0.5])
     end = Instant.from_seconds(END)
     # ---- sequential reference run
@@ -95,6 +99,8 @@ def equivalence(sym, tier):
         r.wit.add("cross_partition_message_delivered")
     if any(l.startswith("reply") for (t, l) in ref["a"]):
         r.wit.add("reply_delivered")
+    if any(P["daemon"].values()) and not all(P["daemon"].values()):
+        r.wit.add("daemon_and_primary_events_mixed")
     if any(t % (S // 2) == 0 and t > 0 for (t, l) in ref["b"]):
         r.wit.add("delivery_exactly_on_window_boundary")
     r.obs = {"ref": ref}
@@ -143,14 +149,14 @@ MANIFEST = {
 
 HARNESSES = [
     H(name="c05_equivalence", fn=equivalence, shape="N", budget=lambda tier: 900.0 if tier == "quick" else 3000.0,
-      cubes=lambda tier: [{"reply": x, "window": w} for x in range(2) for w in range(2)],
-      require=lambda tier: ["cross_partition_message_delivered", "reply_delivered", "delivery_exactly_on_window_boundary"],
+      cubes=lambda tier: [{"reply": x, "window": w, "daemon_send0": d, "daemon_local0": e} for x in range(2) for w in range(2) for d in range(2) for e in range(2)],
+      require=lambda tier: ["cross_partition_message_delivered", "reply_delivered", "delivery_exactly_on_window_boundary", "daemon_and_primary_events_mixed"],
       classify=_classify,
       functions=["ParallelSimulation.__init__/_install_routers/schedule/run/_run_coordinated", "WindowedCoordinator.run/_run_partition_window/_exchange_events",
                  "make_event_router.route", "validate_partitions", "Simulation._run_window", "Simulation._execute_until"],
       bounds=lambda tier: {"partitions": 2, "send events": 1 if tier == "quick" else 2, "local events at receiver": 1 if tier == "quick" else 2, "local events at sender": 1,
                            "event times": "symbolic ns over [0, end]", "cross latency": "min_latency + symbolic extra in [0, 1 s]",
-                           "reply (B->A)": "optional", "window": [1.0, 0.5], "min_latency_s": MINLAT, "end_time_s": 3 if tier == "quick" else 4},
+                           "daemon flags": "symbolic per pre-scheduled event", "reply (B->A)": "optional", "window": [1.0, 0.5], "min_latency_s": MINLAT, "end_time_s": 3 if tier == "quick" else 4},
       outside=["thread interleavings of the worker pool", "sampled link latencies / packet loss (PartitionLink.latency, packet_loss)",
                "more than 2 partitions", "sources inside partitions", "the first event later than end_time (delivered by the sequential fast loop; not compared)"]),
     H(name="c05_independent", fn=independent, shape="N", budget=lambda tier: 600.0,
